@@ -115,6 +115,7 @@ class State:
         self.events = []  # ordered observable events (calls of interest, prints)
         self.fresh_roots = set()
         self.depth = 0
+        self.nfresh = 0
 
     def clone(self):
         s = State()
@@ -131,6 +132,7 @@ class State:
         s.events = list(self.events)
         s.fresh_roots = set(self.fresh_roots)
         s.depth = self.depth
+        s.nfresh = self.nfresh
         return s
 
     def hyps(self):
@@ -335,8 +337,7 @@ class Exec:
             return cache[key][0]
         s = z3.Solver()
         s.set("timeout", int(self.ctx.config.get("decide_timeout_ms", 1500)))
-        if st.axioms:
-            s.set("smt.mbqi", False)
+        s.set("smt.mbqi", False)
         for p in st.axioms:
             s.add(p)
         for p in st.pc:
